@@ -112,6 +112,12 @@ def run(prog: Program, rep: Report, tier: str):
     from .c07 import rule_tri
     rule_tri(prog, rep, R="C05.tri")
     rule_nan(prog, rep, "C05.nan")
+    # "summed over independent dimensions": the location-scale families take their log-density's normaliser from the
+    # parameter bijections' log-dets, which must be the full sum of log|d transform/dx| over the event shape
+    from .c02 import rule_deriv
+    from .bij import bijection_classes
+    rule_deriv(prog, rep, [c for c in bijection_classes(prog) if c.qualname.rsplit(".", 1)[0] in (
+        "flowjax.bijections.affine", "flowjax.bijections.exp", "flowjax.bijections.softplus")], R="C05.logdet", minimum=5)
     # integer parameters (Normal(0, 1)) become floating arrays because the constructors' dtype=float is honoured
     from .c14 import rule_cast
     rule_cast(prog, rep, "C05.cast")
